@@ -20,6 +20,7 @@ func init() {
 			{"UNKNOWN-FIELD-SKIP", ruleUnknownFieldSkip},
 			{"VERSION-SEARCH-EXHAUSTIVE", ruleVersionSearchExhaustive},
 			{"FIELD-IDS-ALWAYS", ruleFieldIDsAlways},
+			{"FIELD-ID-PREFIX-EXACT", ruleFieldIDPrefixExact},
 			{"FIELD-IDS-EVERY-FIELD", ruleFieldIDsEveryField},
 			{"EVENT-COLLECTION-ID", ruleEventCollectionID},
 			{"VERSION-FLIP", ruleVersionFlip},
@@ -27,7 +28,7 @@ func init() {
 			{"TXN-SHAPE", ruleTxnShape},
 		},
 		Meta: eng.PropMeta{
-			Explanation: "Decides the structural conditions of 'schema evolution never alters existing data': (SCHEMA-CONFINEMENT) the call-graph cones of patchSchema, updateSchema and setActiveSchemaVersion reach the transaction's system store but no accessor of the document data store, head store or block store — evolving a schema cannot touch values, heads or commits; (UNKNOWN-FIELD-SKIP) during a merge a field unknown to the local schema version yields a skipped block (nil CRDT, nil error), never an error — peers on a newer version stay mergeable; (VERSION-FLIP) setActiveSchemaVersion saves the target version as active and, when another version was active, that one as inactive, both before the type system is reloaded, in the caller's transaction; (TXN-SHAPE) PatchSchema/PatchCollection/SetActiveSchemaVersion commit only on success. (VERSION-SEARCH-EXHAUSTIVE) the search for the active version above a version descends into every child version; (FIELD-IDS-ALWAYS) description.SaveCollection assigns short field ids before every successful exit, also for a version saved inactive. (FIELD-IDS-EVERY-FIELD) id.SetShortFieldIDs reports success only after the loop over all fields of the version; (EVENT-COLLECTION-ID) every update event built in internal/db is addressed with the collection version's CollectionID (constant across schema versions), never a version id.",
+			Explanation: "Decides the structural conditions of 'schema evolution never alters existing data': (SCHEMA-CONFINEMENT) the call-graph cones of patchSchema, updateSchema and setActiveSchemaVersion reach the transaction's system store but no accessor of the document data store, head store or block store — evolving a schema cannot touch values, heads or commits; (UNKNOWN-FIELD-SKIP) during a merge a field unknown to the local schema version yields a skipped block (nil CRDT, nil error), never an error — peers on a newer version stay mergeable; (VERSION-FLIP) setActiveSchemaVersion saves the target version as active and, when another version was active, that one as inactive, both before the type system is reloaded, in the caller's transaction; (TXN-SHAPE) PatchSchema/PatchCollection/SetActiveSchemaVersion commit only on success. (VERSION-SEARCH-EXHAUSTIVE) the search for the active version above a version descends into every child version; (FIELD-IDS-ALWAYS) description.SaveCollection assigns short field ids before every successful exit, also for a version saved inactive. (FIELD-IDS-EVERY-FIELD) id.SetShortFieldIDs reports success only after the loop over all fields of the version; (EVENT-COLLECTION-ID) every update event built in internal/db is addressed with the collection version's CollectionID (constant across schema versions), never a version id. (FIELD-ID-PREFIX-EXACT) GetShortFieldID takes over only the entries of the requested collection: its iteration prefix has no trailing separator and also matches the entries of collections 10…19 for collection 1, which must be skipped.",
 			NotDecided:  "readability of every document under the active version (lens migrations, defaults), agreement of nodes on different versions over the fields both know for all histories",
 		},
 	})
@@ -378,4 +379,117 @@ func ruleFieldIDsAlways(c *eng.Ctx) {
 			"a collection version can be saved without short field ids being assigned to its fields (e.g. when it is saved inactive): fields written through that version are stored under id 0 and are unreadable once the version is activated")
 	}
 	c.Floor(rule, n, 1)
+}
+
+// ruleFieldIDPrefixExact: GetShortFieldID loads "the whole collection's worth" of short field ids by
+// iterating the system store with the prefix /field/shortID/<collectionShortID>. That prefix has no
+// trailing separator, so for collection 1 it also matches the entries of collections 10…19. Every
+// entry it takes over — the store into the cache and the assignment of the result — must therefore be
+// unreachable for an entry whose parsed collection id differs from the requested one (or the prefix
+// must end in a separator). Otherwise, from the tenth collection on, a field of collection 1 resolves
+// to the short id of a same-named field of collection 10: values are decoded under the wrong field
+// and field commits are filed under another field's heads.
+func ruleFieldIDPrefixExact(c *eng.Ctx) {
+	const rule = "FIELD-ID-PREFIX-EXACT"
+	fi := c.Anchor(rule, "internal/db/id.GetShortFieldID")
+	if fi == nil {
+		return
+	}
+	info := fi.Pkg.TypesInfo
+	construct := "GetShortFieldID:entries-of-other-collections-not-taken"
+	// the requested collection id (parameter) and the parsed entry
+	var want types.Object
+	for _, p := range paramObjs(info, fi.Decl) {
+		if b, ok := p.Type().Underlying().(*types.Basic); ok && b.Info()&types.IsInteger != 0 {
+			want = p
+		}
+	}
+	var parse *ast.AssignStmt
+	for _, cs := range eng.Calls(info, fi.Decl.Body) {
+		if strings.HasSuffix(cs.Name, "keys.NewFieldIDFromString") {
+			parse = assignOf(fi.Decl.Body, cs.Call)
+		}
+	}
+	if want == nil || parse == nil {
+		c.Unknown(rule, construct, fi.Decl.Pos(), "anchor-unresolved: collection id parameter / parsed entry")
+		return
+	}
+	// a prefix that ends in a separator needs no filtering
+	for _, cs := range eng.Calls(info, fi.Decl.Body) {
+		if strings.HasSuffix(cs.Name, ".Iterator") {
+			if strings.Contains(eng.ExprStr(cs.Call), `+ "/"`) {
+				c.OK(rule, construct, cs.Call.Pos(), "the prefix ends in a separator")
+				return
+			}
+		}
+	}
+	entry := eng.ObjOf(info, parse.Lhs[0])
+	flow := eng.NewFlow(info, fi.Decl.Body)
+	ppt, _ := flow.PointOf(parse)
+	var resultVars []types.Object
+	ast.Inspect(fi.Decl.Body, func(m ast.Node) bool {
+		if r, ok := m.(*ast.ReturnStmt); ok && len(r.Results) == 2 {
+			if o := eng.ObjOf(info, r.Results[0]); o != nil {
+				resultVars = append(resultVars, o)
+			}
+		}
+		return true
+	})
+	takes := func(nd ast.Node) bool {
+		as, ok := nd.(*ast.AssignStmt)
+		if !ok || as == parse {
+			return false
+		}
+		for _, l := range as.Lhs {
+			if ix, ok := ast.Unparen(l).(*ast.IndexExpr); ok {
+				if _, isMap := info.TypeOf(ix.X).Underlying().(*types.Map); isMap {
+					return true
+				}
+			}
+			for _, rv := range resultVars {
+				if eng.ObjOf(info, l) == rv && as.Tok == token.ASSIGN {
+					return true
+				}
+			}
+		}
+		return false
+	}
+	where := token.NoPos
+	taken := flow.Forward(ppt, false, eng.Walk{
+		Visit: func(_ eng.Point, nd ast.Node) eng.Action {
+			if nd == ast.Node(parse) {
+				return eng.Cut
+			}
+			if takes(nd) {
+				where = nd.Pos()
+				return eng.Hit
+			}
+			return eng.Continue
+		},
+		Edge: func(cond ast.Expr, tk bool) bool {
+			switch eng.EvalBool(info, cond, func(e ast.Expr) eng.Tri {
+				be, ok := ast.Unparen(e).(*ast.BinaryExpr)
+				if !ok || (be.Op != token.EQL && be.Op != token.NEQ) {
+					return eng.Unknown
+				}
+				isEntryID := func(x ast.Expr) bool {
+					se, ok := ast.Unparen(x).(*ast.SelectorExpr)
+					return ok && se.Sel.Name == "CollectionShortID" && eng.ObjOf(info, se.X) == entry
+				}
+				isWant := func(x ast.Expr) bool { return eng.ObjOf(info, x) == want }
+				if isEntryID(be.X) && isWant(be.Y) || isEntryID(be.Y) && isWant(be.X) {
+					return eng.TriOf(be.Op == token.NEQ) // assume: the entry belongs to another collection
+				}
+				return eng.Unknown
+			}) {
+			case eng.True:
+				return tk
+			case eng.False:
+				return !tk
+			}
+			return true
+		},
+	})
+	c.Check(!taken, rule, construct, parse.Pos(), "an entry of another collection is skipped",
+		"an entry whose collection id differs from the requested one is still taken over at "+c.P.Rel(where)+" (the iteration prefix has no trailing separator, so collection 1 also sees the entries of collections 10…19): a field of the requested collection resolves to another collection's short id")
 }
